@@ -297,7 +297,7 @@ def table_case(draw):
 
 def shards(tier):
     q = tier == "quick"
-    out = [{"name": "hyp-search:%d" % i, "kind": "hyp-search", "examples": 100 if q else 1200} for i in range(12)]
+    out = [{"name": "hyp-search:%d" % i, "kind": "hyp-search", "examples": 100 if q else 600} for i in range(12)]
     for i in range(3):
         out.append({"name": "hyp-search-selection:%d" % i, "kind": "hyp-sel", "examples": 40 if q else 500})
     for i in range(2):
